@@ -334,6 +334,11 @@ func (p *queryPlan) processClause(ctx context.Context, cls *semantic.GraphClause
 		if err != nil {
 			return false, err
 		}
+		if len(tbl.Bindings()) == 0 {
+			// The clause binds nothing: it only has to hold, and has nothing
+			// to add to the rows resolved by the other clauses.
+			return b, nil
+		}
 		if err := p.tbl.AppendTable(tbl); err != nil {
 			return b, err
 		}
